@@ -3,7 +3,7 @@
 //! The main future plays scheduler, callers and the simulated MPD server; the run loop is the task Client::connect spawns.
 use std::{cell::RefCell, collections::VecDeque, future::Future, io, pin::Pin, rc::Rc, sync::{atomic::{AtomicBool, Ordering}, Arc},
           task::{Context, Poll, RawWaker, RawWakerVTable, Waker}, time::Duration};
-use tokio::io::{AsyncRead, AsyncWrite, AsyncReadExt, AsyncWriteExt, DuplexStream, ReadBuf};
+use tokio::io::{AsyncRead, AsyncWrite, AsyncWriteExt, DuplexStream, ReadBuf};
 use mpd_client::{client::{CommandError, ConnectionEvent}, Client};
 use mpd_protocol::{command::{Command, CommandList}, response::Frame};
 
@@ -15,7 +15,7 @@ fn noop_waker() -> Waker {
 }
 
 #[derive(Default)]
-struct Flags { fail_read: AtomicBool, fail_write: AtomicBool, dropped: AtomicBool }
+struct Flags { fail_read: AtomicBool, fail_write: AtomicBool, dropped: AtomicBool, budget: std::sync::atomic::AtomicIsize, waker: std::sync::Mutex<Option<Waker>> }
 struct Faulty { inner: DuplexStream, flags: Arc<Flags> }
 impl Drop for Faulty { fn drop(&mut self) { self.flags.dropped.store(true, Ordering::SeqCst); } }
 impl AsyncRead for Faulty {
@@ -27,7 +27,12 @@ impl AsyncRead for Faulty {
 impl AsyncWrite for Faulty {
     fn poll_write(mut self: Pin<&mut Self>, cx: &mut Context<'_>, buf: &[u8]) -> Poll<io::Result<usize>> {
         if self.flags.fail_write.load(Ordering::SeqCst) { return Poll::Ready(Err(io::ErrorKind::BrokenPipe.into())); }
-        Pin::new(&mut self.inner).poll_write(cx, buf)
+        let b = self.flags.budget.load(Ordering::SeqCst);
+        if b == 0 { *self.flags.waker.lock().unwrap() = Some(cx.waker().clone()); return Poll::Pending; }
+        let n = if b < 0 { buf.len() } else { buf.len().min(b as usize) };
+        let r = Pin::new(&mut self.inner).poll_write(cx, &buf[..n]);
+        if let Poll::Ready(Ok(k)) = &r { if b > 0 { self.flags.budget.fetch_sub(*k as isize, Ordering::SeqCst); } }
+        r
     }
     fn poll_flush(mut self: Pin<&mut Self>, cx: &mut Context<'_>) -> Poll<io::Result<()>> { Pin::new(&mut self.inner).poll_flush(cx) }
     fn poll_shutdown(mut self: Pin<&mut Self>, cx: &mut Context<'_>) -> Poll<io::Result<()>> { Pin::new(&mut self.inner).poll_shutdown(cx) }
@@ -37,8 +42,8 @@ impl AsyncWrite for Faulty {
 #[derive(Default)]
 struct Server {
     buf: Vec<u8>, idle: bool, pending: Vec<Vec<u8>>, lines: Vec<Vec<u8>>, violations: Vec<String>, changed: Vec<Vec<u8>>, in_list: Option<Vec<Vec<u8>>>,
-    outbox: VecDeque<u8>, released_unread_hint: usize, password: String, closed: bool, multi_changed: bool,
-    art: Option<(Vec<u8>, usize, usize, bool)>, art_requests: Vec<Vec<u8>>,
+    outbox: VecDeque<u8>, password: String, closed: bool, multi_changed: bool,
+    art: Option<(Vec<u8>, usize, usize, bool)>, art_requests: Vec<Vec<u8>>, known: Option<Vec<Vec<u8>>>,
 }
 impl Server {
     fn send(&mut self, d: &[u8]) { self.outbox.extend(d.iter().copied()); }
@@ -62,6 +67,8 @@ impl Server {
         }
         if line == b"noidle" { if self.idle { self.idle = false; self.send(b"OK\n"); } return; }
         if self.idle { self.violations.push(format!("{:?} written while the server is idling", String::from_utf8_lossy(&line))); return; }
+        if let Some(k) = &self.known { if !k.contains(&line) && !line.starts_with(b"password") && !line.starts_with(b"readpicture") && !line.starts_with(b"albumart") {
+            self.violations.push(format!("{:?} is not a request any caller issued (torn or merged request lines)", String::from_utf8_lossy(&line))); } }
         if undelivered && self.in_list.is_none() && line != b"command_list_end" { self.violations.push(format!("request {:?} written before the previous reply was consumed", String::from_utf8_lossy(&line))); }
         if line.starts_with(b"password") {
             match self.password.as_str() { "ACK" => self.send(b"ACK [3@0] {password} incorrect password\n"), "garbage" => self.send(b"\x01\x02\n"), "close" => self.closed = true, _ => self.send(b"OK\n") }
@@ -71,6 +78,7 @@ impl Server {
         if line == b"command_list_end" {
             let cmds = self.in_list.take().unwrap_or_default();
             for (k, c) in cmds.iter().enumerate() {
+                if c.starts_with(b"p") { let w = c.split(|b| *b == b' ').next().unwrap(); self.send(format!("file: x\nTitle: y\nACK [50@{k}] {{{}}} failed half-way\n", String::from_utf8_lossy(w)).as_bytes()); return; }
                 if c.starts_with(b"f") { let w = c.split(|b| *b == b' ').next().unwrap(); self.send(format!("ACK [5@{k}] {{{}}} failing\n", String::from_utf8_lossy(w)).as_bytes()); return; }
                 let mut l = b"id: ".to_vec(); l.extend_from_slice(c); l.extend_from_slice(b"\nlist_OK\n"); self.send(&l);
             }
@@ -96,7 +104,8 @@ impl Server {
                 self.send(&out); return;
             }
         }
-        if line.starts_with(b"f") { let w = line.split(|b| *b == b' ').next().unwrap(); self.send(format!("ACK [5@0] {{{}}} failing\n", String::from_utf8_lossy(w)).as_bytes()); }
+        if line.starts_with(b"p") { let w = line.split(|b| *b == b' ').next().unwrap(); self.send(format!("file: x\nTitle: y\nACK [50@0] {{{}}} failed half-way\n", String::from_utf8_lossy(w)).as_bytes()); }
+        else if line.starts_with(b"f") { let w = line.split(|b| *b == b' ').next().unwrap(); self.send(format!("ACK [5@0] {{{}}} failing\n", String::from_utf8_lossy(w)).as_bytes()); }
         else { let mut l = b"id: ".to_vec(); l.extend_from_slice(&line); l.extend_from_slice(b"\nOK\n"); self.send(&l); }
     }
 }
@@ -146,9 +155,15 @@ pub fn client(a: &[String]) {
             let pic: Vec<u8> = (0..size).map(|i| if i % 3 != 0 { 0x41 + (i % 5) as u8 } else { 10 }).collect();
             server.borrow_mut().art = Some((pic, p[1].parse().unwrap(), p[2].parse().unwrap(), p[3] == "1"));
         }
+        {
+            let mut k: Vec<Vec<u8>> = vec![b"command_list_ok_begin".to_vec(), b"command_list_end".to_vec()];
+            for c in callers_spec.split('|') { for req in c.split(';').filter(|s| !s.is_empty()) { let (_, body) = req.split_once(':').unwrap(); for n in body.split(',') { k.push(n.as_bytes().to_vec()); } } }
+            server.borrow_mut().known = Some(k);
+        }
         let flags = Arc::new(Flags::default());
+        flags.budget.store(-1, Ordering::SeqCst);
         let (cl, srv) = tokio::io::duplex(1 << 16);
-        let (mut srv_r, mut srv_w) = tokio::io::split(srv);
+        let (mut srv_r, srv_w) = tokio::io::split(srv);
         let mut srv_w = Some(srv_w);
         let waker = noop_waker();
         // server side helpers
@@ -184,7 +199,7 @@ pub fn client(a: &[String]) {
             // release everything the server produced
             let out: Vec<u8> = server.borrow_mut().outbox.drain(..).collect();
             if !out.is_empty() { if let Some(w) = srv_w.as_mut() { w.write_all(&out).await.unwrap(); } }
-            if server.borrow().closed { srv_w = None; }
+            if server.borrow().closed { if let Some(mut w) = srv_w.take() { let _ = w.shutdown().await; } }
             tokio::task::yield_now().await;
         }
         drop(conn);
@@ -223,9 +238,11 @@ pub fn client(a: &[String]) {
             else if st == "deliver" { deliver!(false); }
             else if st == "deliver/2" { deliver!(true); }
             else if let Some(n) = st.strip_prefix("change:") { server.borrow_mut().change(n.as_bytes()); change_n += 1; }
-            else if st == "tick" { tokio::time::pause(); tokio::time::advance(Duration::from_millis(150)).await; pump!(); }
+            else if st == "tick" { tokio::time::advance(Duration::from_millis(150)).await; pump!(); }
+            else if st == "slowwrite" { flags.budget.store(1, Ordering::SeqCst); }
+            else if st == "unblock" { flags.budget.store(-1, Ordering::SeqCst); if let Some(w) = flags.waker.lock().unwrap().take() { w.wake(); } }
             else if st == "dropclient" { if !clients.is_empty() { clients.remove(0); } }
-            else if st == "fault:eof" { srv_w = None; }
+            else if st == "fault:eof" { if let Some(mut w) = srv_w.take() { let _ = w.shutdown().await; } }
             else if st == "fault:read_error" { flags.fail_read.store(true, Ordering::SeqCst); }
             else if st == "fault:write_error" { flags.fail_write.store(true, Ordering::SeqCst); }
             else if st == "fault:garbage" { if let Some(w) = srv_w.as_mut() { let _ = w.write_all(b"\x01 junk\n").await; } }
@@ -233,6 +250,7 @@ pub fn client(a: &[String]) {
             steps_done.push(st.to_string());
         }
         let _ = change_n;
+        flags.budget.store(-1, Ordering::SeqCst); if let Some(w) = flags.waker.lock().unwrap().take() { w.wake(); }
         // final settle (as in the python harness): everything delivered, timers expired, everything polled
         for round in 0..12 {
             for _ in 0..6 { while !server.borrow().outbox.is_empty() { deliver!(false); } run_tasks!(); for i in 0..callers.len() { poll_caller!(i); } }
